@@ -308,7 +308,7 @@ static void watchdog(int64_t limit_ms) {
       const char msg[] = "HANG\n";
       fflush(stdout);
       (void)!::write(1, msg, sizeof(msg) - 1);
-      _exit(3);
+      _exit(3);   // ltv.run_sharded resumes after this case (a repeat shows up as "CRASH rc=3")
     }
   }
 }
@@ -335,7 +335,7 @@ int main(int argc, char** argv) {
   while (std::getline(std::cin, line)) {
     g_case_start_ms = now_ms();
     if (const char* z = getenv("C08_TEST_SLEEP_MS"))   // self-test of the watchdog only
-      if (line.find(" 53 78 ") != std::string::npos) std::this_thread::sleep_for(std::chrono::milliseconds(atoll(z)));
+      if (line.find(" S 78 ") != std::string::npos) std::this_thread::sleep_for(std::chrono::milliseconds(atoll(z)));
     auto t = split_ws(line);
     std::string res;
     try {
